@@ -94,6 +94,8 @@ def gen_spec(rng, fmt):
             spec['nt'] = 1           # initial conditions: one time
     else:
         spec['kind'] = fmt
+        if fmt == 'wind' and rng.random() < 0.35:
+            spec['nostagger'] = True       # 8-byte time records (no stagger flag)
     return spec
 
 
